@@ -276,6 +276,19 @@ func init() {
 				out = append(out, sc)
 			}
 		}
+		// an immediate stop while the receiver is unreachable for longer than the
+		// bound (start-up recovery, or whatever the sender is doing, keeps
+		// failing): "it exits promptly" must not depend on the receiver
+		for _, k := range []int{1, 2, 1 + g.IntN(imax(n, 1))} {
+			sc := cloneScenario(base)
+			sc.Faults = nil
+			sc.FaultFree = false
+			sc.Env = []*envAction{{Kind: "crash-receiver", At: 0}}
+			sc.DownTime = 5 * time.Hour
+			sc.StopAt = k
+			sc.StopGraceful = false
+			out = append(out, sc)
+		}
 		return out
 	}
 }
